@@ -10,8 +10,10 @@ for line in open(os.path.join(HERE, "seeded", "RESULTS.md")):
             rows[c[0]] = c
 out = []
 out.append("### 10.5 Seeded defects: which checks catch which changes\n")
-out.append("Three rounds of fresh sub-agents (round 1: 2 changes for each of the 18 properties; round 2: 3 \"harder\" "
-           "changes for 15 properties; round 3: two-site changes) got only the text of one property and a scratch "
+out.append("Six rounds of fresh sub-agents (round 1: 2 changes for each of the 18 properties; round 2: 3 \"harder\" "
+           "changes for 15 properties; rounds 3 and 4: two-site changes; round 5: 3 changes each for the contract-style "
+           "properties, told to avoid the obvious site; round 6: 3 changes each for the scheduler properties, told which "
+           "mechanisms earlier rounds had already used) got only the text of one property and a scratch "
            "worktree; every kept change was re-verified here (patch applies to the current /repo HEAD, the 233 tests pass "
            "with it, the demonstration fails with it and passes without it) and lives in `seeded/<id>/` (`patch.diff`, "
            "`demo.py`, `notes.md`, `meta.json`). `seeded/own-*` is the own catalogue of section 7. `tools/run_mutant.sh` "
@@ -26,7 +28,10 @@ out.append("Checks that were *strengthened because they missed a change* (each m
            "simulators in the catalogue; never-awaited coroutines), C06 (pure async and shift+async combinations), C04 "
            "(writing agents, `None` values, outcome differences, analysis of remote runs), C11 (cache off; hierarchical "
            "entities), C09 (loops closed over time; loops left via a future output time), C17 (`set_event` beyond "
-           "`until` outside real-time mode; blocking steps).\n")
+           "`until` outside real-time mode; blocking steps); round 5: C15 (three-component version strings such as 2.1.0), "
+           "C18 (one-shot iterables as source set of `connect_many_to_one`), C11 (children lists with several model "
+           "types, grandchildren), C08 (the derived operators `<=`, `>=`, `!=`), C13 (real-time mode with a simulator "
+           "that queues steps for itself through `set_event()` before the malformed reply).\n")
 out.append("| seeded defect | origin | checks run -> verdict | what it is |")
 out.append("|---|---|---|---|")
 n = caught = 0
